@@ -5,4 +5,17 @@ import shutil, sys, tomllib  # noqa
 missing = [t for t in ("verus", "cargo-kani", "cargo", "cbmc") if shutil.which(t) is None]
 if missing:
     print("missing tools:", missing); sys.exit(1)
-print("ok")
+import os
+sys.path.insert(0, os.path.dirname(os.path.abspath(__file__)))
+import kani_lane
+obs = kani_lane.parse_registry()
+names = [o.get("harness", "") for o in obs]
+bad = [o["id"] for o in obs if not o.get("harness", "").startswith("k_")]
+dup = sorted(set(n for n in names if names.count(n) > 1))
+for o in obs:
+    txt = open(os.path.join(kani_lane.KDIR, o["module_file"])).read()
+    if ("fn %s(" % o.get("harness", "?")) not in txt and ("(%s," % o.get("harness", "?")) not in txt:
+        bad.append(o["id"])
+if bad or dup:
+    print("registry problem:", bad, dup); sys.exit(1)
+print("ok: %d lane-K obligations registered" % len(obs))
